@@ -3,6 +3,7 @@
 package rhp
 
 import (
+	"sync"
 	"strings"
 	"context"
 	"errors"
@@ -95,7 +96,25 @@ func (c *c12Chain) AddV2PoolTransactions(types.ChainIndex, []types.V2Transaction
 
 type c12Syncer struct{}
 
-func (c12Syncer) BroadcastTransactionSet([]types.Transaction)                       {}
+// the order in which a handler hands the contract's transaction set to the network and the
+// contract to the store: a block confirming the formation can only be mined elsewhere after the
+// broadcast, and the host only recognises a formation as its own if it knows the contract when
+// it processes that block (C01: a formed contract must not end rejected)
+var (
+	c12EvMu  sync.Mutex
+	c12Evs   []string
+)
+
+func c12Event(e string) { c12EvMu.Lock(); c12Evs = append(c12Evs, e); c12EvMu.Unlock() }
+func c12TakeEvents() []string {
+	c12EvMu.Lock()
+	defer c12EvMu.Unlock()
+	e := c12Evs
+	c12Evs = nil
+	return e
+}
+
+func (c12Syncer) BroadcastTransactionSet([]types.Transaction)                       { c12Event("broadcast") }
 func (c12Syncer) BroadcastV2TransactionSet(types.ChainIndex, []types.V2Transaction) {}
 
 type c12Wallet struct {
@@ -130,10 +149,12 @@ func (c *c12Contracts) Lock(context.Context, types.FileContractID) (contracts.Si
 func (c *c12Contracts) Unlock(types.FileContractID) {}
 func (c *c12Contracts) AddContract(revision contracts.SignedRevision, formationSet []types.Transaction, lockedCollateral types.Currency, initialUsage contracts.Usage) error {
 	c.rec = append(c.rec, c12Recorded{kind: "add", revision: revision, locked: lockedCollateral, usage: initialUsage})
+	c12Event("store")
 	return nil
 }
 func (c *c12Contracts) RenewContract(renewal contracts.SignedRevision, existing contracts.SignedRevision, formationSet []types.Transaction, lockedCollateral types.Currency, clearingUsage, renewalUsage contracts.Usage) error {
 	c.rec = append(c.rec, c12Recorded{kind: "renew", revision: renewal, clearing: existing, locked: lockedCollateral, usage: renewalUsage, clearingU: clearingUsage})
+	c12Event("store")
 	return nil
 }
 func (c *c12Contracts) ReviseContract(types.FileContractID) (*contracts.ContractUpdater, error) {
@@ -504,6 +525,7 @@ func TestVerifC12V2(t *testing.T) {
 			em.Count(fmt.Sprintf("late-blocks:%d", chain.late))
 			wallet := &c12Wallet{addr: walletAddr}
 			cm := &c12Contracts{}
+			c12TakeEvents()
 			sh := &SessionHandler{privateKey: c12HostKey, chain: chain, syncer: c12Syncer{}, wallet: wallet, contracts: cm,
 				settings: c12SettingsStub{settings}, log: zap.NewNop(), tg: threadgroup.New()}
 			sess := &session{}
@@ -583,6 +605,9 @@ func TestVerifC12V2(t *testing.T) {
 					out = fmt.Sprintf("(Ok (ORenew %s %s %s))", r.locked.ExactString(), c12UsageTerm(r.clearingU), c12UsageTerm(r.usage))
 				}
 				// monitors on what was recorded
+				if evs := strings.Join(c12TakeEvents(), ","); evs != "store,broadcast" {
+					em.Monitor("contract-broadcast-before-stored", kind+": "+evs)
+				}
 				if len(cm.rec) != 1 {
 					em.Monitor("contract-recorded-more-than-once", fmt.Sprint(len(cm.rec)))
 				}
